@@ -4,10 +4,13 @@
 import json, os, shutil, glob
 trials = json.load(open('/verif/seeded/trials.json'))
 for sid, t in sorted(trials.items()):
-    pid, n = sid.split('-')
-    src = f'/tmp/seed_{pid}_out/change{n}'
+    parts = sid.split('-')               # C01-2 (round 1) or C01-r2-2 (round 2)
+    pid, n = parts[0], parts[-1]
+    pre = 'seed2' if len(parts) == 3 else 'seed'
+    src = f'/tmp/{pre}_{pid}_out/change{n}'
     if not os.path.exists(src + '/patch.diff'):
-        print('missing', sid); continue
+        if not os.path.exists(f'/verif/seeded/{sid}/patch.diff'): print('missing', sid)
+        continue
     dst = f'/verif/seeded/{sid}'
     os.makedirs(dst, exist_ok=True)
     shutil.copy(src + '/patch.diff', dst + '/patch.diff')
@@ -24,13 +27,13 @@ for sid, t in sorted(trials.items()):
         'demo': {k: v for k, v in m.items() if k.startswith('demo')},
         'author_tests_run': m.get('tests_run'),
         'confirmed_by_main_session': None if conf is None else {
-            'in': f'scratch worktree /tmp/seed_{pid} (removed afterwards)',
+            'in': f'scratch worktree /tmp/{pre}_{pid} (removed afterwards)',
             'patch_applies': conf['patch_applies'],
             'demo_without_change_exit': conf['demo_without_change_exit'],
             'demo_with_change_exit': conf['demo_with_change_exit'],
             'repository_suite_with_change': conf['baseline_out'].strip().split('\n')[0],
             'confirmed': conf['confirmed'],
-            'cmd': 'lib/confirm_seed.py %s %s  (cargo test of the demo without / with the patch, then lib/baseline.sh = the repository suite compared with BASELINE.json stable_pass)' % (pid, n),
+            'cmd': ('SEED_PREFIX=seed2 ' if pre == 'seed2' else '') + 'lib/confirm_seed.py %s %s  (cargo test of the demo without / with the patch, then lib/baseline.sh = the repository suite compared with BASELINE.json stable_pass)' % (pid, n),
         },
         'check_trial': dict(t, cmd='lib/try_seed.sh seeded/%s/patch.diff %s   (git -C /repo apply; ./check %s --tier quick; git -C /repo checkout -- .)' % (sid, t['check'], t['check'])),
     }
